@@ -12,7 +12,7 @@ import os, random, gzip, threading, types, itertools, json, shutil
 from .. import tlc, vsched, tracecheck
 from ..vsched import Sched, VLock
 
-ACTIONS = ["Dispatch", "TryRead", "Check1", "InnerGet", "RelReadMid", "TryWrite", "Check2", "PutBegin", "PutEnd", "Switch",
+ACTIONS = ["NestStart", "NTryRead", "NCheck", "NInnerGet", "NBodyExit", "NRelRead", "NRmvProbe", "NRmvRaise", "Dispatch", "TryRead", "Check1", "InnerGet", "RelReadMid", "TryWrite", "Check2", "PutBegin", "PutEnd", "Switch",
            "EnterAfterPut", "BodyExit", "RelReadFinal", "ErrRelease", "RmvProbe", "InnerRmv", "RelWrite"]
 FINISH = dict(level="model_checking",
               rule="a case = one execution of the real ConcurrentCacher under one virtual schedule (program assignment x schedule x inner cache kind) or one byte cut of a disk entry; distinct = distinct (program, event sequence)")
@@ -160,6 +160,20 @@ def run_one(policy, progs, disk, keys, tmpdir, max_steps=4000):
                             ok = data == expected_value(key)
                         except (EOFError, OSError) as e:
                             ok = False
+                        if op.get("n", "none") == "gs":        # the same key again, inside the body (a re-entrant read)
+                            s.op("nest", None, lambda: True, lambda: s.log(e="nest", c=cname))
+                            with cc.get_set(key, make_getter(s, op["k"], key, "ok", disk)) as v2:
+                                s.log(e="enter", c=cname)
+                                s.op("body", None, lambda: True, lambda: None)
+                                d2 = [x.rstrip("\n") for x in v2] if not isinstance(v2, list) else v2
+                                s.log(e="bodyExit", c=cname, ok=bool(d2 == expected_value(key)))
+                        elif op.get("n", "none") == "rmv":     # removing the entry one is reading must be refused, changing nothing
+                            s.op("nest", None, lambda: True, lambda: s.log(e="nest", c=cname))
+                            try:
+                                cc.rmv(key)
+                                s.log(e="error", c=cname, what="rmv inside the body was not refused")
+                            except C.CobaException:
+                                s.log(e="nraise", c=cname)
                         s.op("body", None, lambda: True, lambda: None)
                         s.log(e="bodyExit", c=cname, ok=bool(ok))
                         if op["b"] == "raise": raise BodyErr(key)
@@ -209,8 +223,9 @@ def rand_progs(rng, ncallers, maxops):
     ks = ["k1", "k2", "k3"]
     def op():
         k = rng.choice(ks[:2] if rng.random() < .8 else ks)
-        if rng.random() < .3: return dict(t="rmv", k=k, g="ok", b="ok")
-        return dict(t="gs", k=k, g=rng.choice(["ok", "ok", "raise"]), b=rng.choice(["ok", "ok", "raise"]))
+        if rng.random() < .3: return dict(t="rmv", k=k, g="ok", b="ok", n="none")
+        if rng.random() < .2: return dict(t="gs", k=k, g="ok", b="ok", n=rng.choice(["gs", "rmv"]))
+        return dict(t="gs", k=k, g=rng.choice(["ok", "ok", "raise"]), b=rng.choice(["ok", "ok", "raise"]), n="none")
     progs = {c: [] for c in "abc"}
     for c in "abc"[:ncallers]:
         progs[c] = [op() for _ in range(rng.randint(1, maxops))]
